@@ -28,3 +28,27 @@ class Node(Command):
             for c in sub:
                 deps.append(("NL", c.result_name, None, c.result))
         return (self.result_name, tuple((k, n, r) for k, n, f, r in deps))
+
+
+class NoneNode(Node):
+    """side-effect-only command: execute() returns None"""
+    inputs = dict(Node.inputs)
+    output = params.Parameter()
+
+    def execute(self, **kw):
+        Node.execute(self, **kw)
+        return None
+
+
+class LazyNode(Node):
+    """a consumer that never reads the results of its list-referenced dependencies"""
+    inputs = dict(Node.inputs)
+    output = params.Parameter()
+
+    def execute(self, **kw):
+        LOG.append(self.result_name)
+        deps = []
+        for k in ("D", "D2", "D3"):
+            if k in kw:
+                deps.append(("D", kw[k].result_name, kw[k].result))
+        return (self.result_name, tuple(deps))
